@@ -72,6 +72,9 @@ type H2Case struct {
 	Steps     []Step `json:"steps"`
 	Preface2  bool   `json:"preface_in_two_segments"`
 	GoAway    bool   `json:"goaway"`
+	// GoAwayTwice (with GoAway): the two-step shutdown of RFC 9113 6.8 - a first GOAWAY with the highest stream id, then
+	// the one with the real last stream id
+	GoAwayTwice bool `json:"goaway_twice,omitempty"`
 }
 
 var headerLists = func() [][]hpack.HeaderField {
@@ -259,6 +262,7 @@ func genH2(flow bool) func(t *rapid.T) H2Case {
 		c.MaxFrameB = rapid.SampledFrom([]int{16384, 16384, 32768, 65536}).Draw(t, "maxframeB")
 		c.Preface2 = !flow && rapid.IntRange(0, 3).Draw(t, "preface2") == 0 // preface forwarding is C10's subject
 		c.GoAway = rapid.IntRange(0, 5).Draw(t, "goaway") == 0
+		c.GoAwayTwice = c.GoAway && rapid.Bool().Draw(t, "goawaytwice")
 		genSteps(t, &c, flow)
 		return c
 	}
@@ -1072,6 +1076,9 @@ func runH2(c H2Case, checkC10 bool) (fails []vstat.Failure) {
 	}
 	if ok && c.GoAway {
 		r.a.wmu.Lock()
+		if c.GoAwayTwice {
+			r.a.fr.WriteGoAway(1<<31-1, http2.ErrCodeNo, []byte("graceful"))
+		}
 		r.a.fr.WriteGoAway(7, http2.ErrCodeNo, []byte("bye"))
 		r.a.wmu.Unlock()
 	}
@@ -1114,7 +1121,7 @@ func runH2(c H2Case, checkC10 bool) (fails []vstat.Failure) {
 		okB := r.b.waitFor(stepBound, arrived(r.b, &r.sa))
 		okA := r.a.waitFor(stepBound, arrived(r.a, &r.sb))
 		if c.GoAway {
-			r.b.waitFor(stepBound, func() bool { return len(r.b.goaways) > 0 })
+			r.b.waitFor(stepBound, func() bool { return len(r.b.goaways) > 0 && (!c.GoAwayTwice || len(r.b.goaways) > 1) })
 		}
 		for _, p := range [][2]*endpoint{{r.a, r.b}, {r.b, r.a}} {
 			from, to := p[0], p[1]
@@ -1328,8 +1335,12 @@ func (r *h2run) judge(c H2Case, checkC10, okA, okB, credA, credB bool) {
 		}
 		if c.GoAway {
 			r.b.mu.Lock()
-			if len(r.b.goaways) != 1 || r.b.goaways[0] != "7/0/bye" {
-				r.fails = append(r.fails, vstat.Failf("C10:goaway", "GOAWAY(7, NO_ERROR, bye) arrived as %v", r.b.goaways))
+			want := []string{"7/0/bye"}
+			if c.GoAwayTwice {
+				want = []string{"2147483647/0/graceful", "7/0/bye"}
+			}
+			if fmt.Sprint(r.b.goaways) != fmt.Sprint(want) {
+				r.fails = append(r.fails, vstat.Failf("C10:goaway", "GOAWAY frames %v arrived as %v", want, r.b.goaways))
 			}
 			r.b.mu.Unlock()
 		}
